@@ -10,7 +10,7 @@ QNAMES = ["current_time", "available_operations", "raw_ready_operations", "unsch
 
 class C05(SessionCheck):
     pid = "C05"
-    inst_kwargs = dict(allow_empty_jobs=True)
+    inst_kwargs = dict(allow_empty_jobs=True, huge=True)
     gen_kwargs = dict(p_invalid=0.05, p_query=0.6, p_reset=0.04, p_snapshot=1.0, p_obs=0.05,
                       start_observers_choices=[1], obs_kinds=(0, 1, 2, 3))
     assumptions = ["valid instance: durations >= 0, every operation has a machine",
